@@ -23,7 +23,8 @@ LOCAL I(h) == ZToInt(h)                 \* small scalar from its hex numeral
 
 (* --- contracts used by several functions --- *)
 GcdextOK(a, b, g, s, t, haveT) ==
-   /\ g = ZGcd(a, b)
+   \* g = gcd(a, b) without computing a gcd: g >= 0 divides both and is an integer combination of both (any common divisor then divides g)
+   /\ ~ZIsNeg(g) /\ ZDivides(g, a) /\ ZDivides(g, b) /\ (g = "0" => (a = "0" /\ b = "0"))
    /\ (haveT => ZAdd(ZMul(a, s), ZMul(b, t)) = g)
    /\ (~haveT => (b = "0" /\ ZMul(a, s) = g) \/ (b # "0" /\ ZDivides(b, ZSub(g, ZMul(a, s)))))
    /\ IF ZAbs(a) = ZAbs(b)
